@@ -872,7 +872,7 @@ fn main() {
         std::process::exit(replay(&exes, &path));
     }
 
-    let ctx = Ctx::new("C13", tier, tier.pick(48, 1100));
+    let ctx = Ctx::new("C13", tier, tier.pick(240, 1100));
     let mut rep = Report::new();
     rep.notes.extend(notes);
     if exes.release.is_none() {
